@@ -49,7 +49,13 @@ func c02Mapping() mapping.IndexMapping {
 	kf := bleve.NewTextFieldMapping()
 	kf.Analyzer = "keyword"
 	kf.IncludeTermVectors = false
+	kf.DocValues = false // sorted on through the per-segment un-inverted cache
 	dm.AddFieldMappingsAt("k0", kf)
+	kf1 := bleve.NewTextFieldMapping() // a second one of the kind, never queried, only sorted and faceted on
+	kf1.Analyzer = "keyword"
+	kf1.IncludeTermVectors = false
+	kf1.DocValues = false
+	dm.AddFieldMappingsAt("k1", kf1)
 	dm.AddFieldMappingsAt("n0", bleve.NewNumericFieldMapping())
 	dm.AddFieldMappingsAt("b0", bleve.NewBooleanFieldMapping())
 	dm.AddFieldMappingsAt("d0", bleve.NewDateTimeFieldMapping())
@@ -93,6 +99,7 @@ func genC02Doc(r *Rng, i int) c02Doc {
 		for k := 0; k < nk; k++ {
 			d.texts["k0"] = append(d.texts["k0"], []string{c02Keys[r.Intn(len(c02Keys))]})
 		}
+		d.texts["k1"] = [][]string{{"s" + d.texts["k0"][0][0]}}
 	}
 	if r.Chance(60) {
 		b := r.Bool()
